@@ -28,6 +28,15 @@ type ConnSniffer struct {
 	*Sniffer
 }
 
+// CloseWrite passes a write-shutdown through to the wrapped connection
+// (embedding the net.Conn interface does not promote CloseWrite).
+func (s *ConnSniffer) CloseWrite() error {
+	if wc, ok := s.Conn.(interface{ CloseWrite() error }); ok {
+		return wc.CloseWrite()
+	}
+	return nil
+}
+
 func NewConnSniffer(conn net.Conn, timeout time.Duration) *ConnSniffer {
 	s := &ConnSniffer{
 		Conn:    conn,
